@@ -28,9 +28,28 @@ def build(case):
     return m
 
 
+def build_deep(seed):
+    """the 0/1 program of c11.deep_tree_binary"""
+    from rsome import lp as lpm
+    r = np.random.default_rng(seed)
+    n, k = 16, 2
+    A = r.integers(0, 100, (k, n)).astype(float); t = np.floor(A.sum(axis=1) / 2)
+    m = lpm.Model(); x = m.dvar(n, vtype='B'); y = m.dvar(k)
+    m.min(y.sum()); m.st(y >= 0); m.st(A @ x - t <= y); m.st(t - A @ x <= y)
+    return m
+
+
 if __name__ == '__main__':
     case = json.loads(sys.argv[1])
     from rsome import eco_solver
+    if 'deep_tree_seed' in case:
+        saved = os.dup(1); null = os.open(os.devnull, os.O_WRONLY); os.dup2(null, 1)      # ECOS writes to fd 1
+        m = build_deep(case['deep_tree_seed'])
+        m.solve(eco_solver, display=False)
+        sol = m.solution
+        os.dup2(saved, 1)
+        print('value', 'none' if (sol is None or sol.x is None or np.isnan(sol.objval)) else repr(float(sol.objval)))
+        sys.exit(0)
     with open(os.devnull, 'w') as fh, contextlib.redirect_stdout(fh):
         m = build(case)
         m.solve(eco_solver, display=False)
